@@ -380,6 +380,18 @@ func (x *bufExec) step(line string) string {
 		x.closing = append(x.closing, false)
 		x.closeCh = append(x.closeCh, nil)
 		return "ok"
+	case "putflip":
+		// Put with a context that is cancelled right after the up-front check saw it live (a cancellation that lands while the
+		// Put waits for the lock): the Put may succeed or fail, but a Put that fails must not have appended
+		vals := make([]interface{}, 0, len(f)-1)
+		for _, s := range f[1:] {
+			vals = append(vals, atoi(s))
+		}
+		err := x.b.Put(newFlipCtx(), vals...)
+		if err == nil {
+			return "ok"
+		}
+		return "err"
 	case "put":
 		vals := make([]interface{}, 0, len(f)-1)
 		for _, s := range f[1:] {
@@ -547,7 +559,13 @@ func execBuffer(t *trace, script []string) {
 	x := newBufExec(t)
 	for _, line := range script {
 		r := x.step(line)
-		t.Line(line, r)
+		if strings.HasPrefix(line, "putflip") && r != "skipped" {
+			// the model is told what the Put reported; it answers whether that is consistent, and the state line that follows
+			// shows whether the values are there
+			t.Line("putflipres "+r+strings.TrimPrefix(line, "putflip"), "ok")
+		} else {
+			t.Line(line, r)
+		}
 		if r == "skipped" {
 			continue
 		}
@@ -578,6 +596,9 @@ func genBuffer(r *rng.R, tier string, i int) []string {
 		case 0:
 			k := []int{0, 1, 1, 2, 3, 7}[r.Intn(6)]
 			op := "put"
+			if r.Chance(8) {
+				op = "putflip"
+			}
 			for j := 0; j < k; j++ {
 				op += " " + strconv.Itoa(next)
 				next++
